@@ -48,6 +48,7 @@ func verifProp_C03_Iff() func(*rapid.T) {
 	rec := stats.Get("C03", "iff")
 	rec.Rule("rapid: (pubx,puby,e,r,s) from: valid signatures (uniform and with short r/s/t); single-bit flips of each field; length changes (drop/prepend/append/empty/strip leading zeros) of each field; triples SOLVED to satisfy the verification equation while breaking one side condition: r=0, s=0, r+s=n, [s]G+[t]P=O with e=r, r+n, s+n (when they fit in 32 bytes), key with x+p (tiny x found by square root), y>=p, off-curve, (x,p-y), (0,0); e+n (stays valid); r or s >= n; r,s swapped; garbage. Oracle: VerifyHashed's bool == sm2ref.Verify (GM/T 0003.2 §7, all side conditions); error only with false; no panic; inputs unmodified. Non-trivial: every constructed class (everything except plain valid and garbage), or the reference accepts; distinct by the five strings.")
 	return func(t *rapid.T) {
+		foreignCalls(t, rec, "foreign") // state left behind by other entry points must not matter
 		c := sm2gen.DrawVerifyCase(t)
 		want := c03Check(t, rec, c)
 		rec.Case(stats.Hash(c.Px, c.Py, c.E, c.R, c.S), c.Special || want, "class:"+c.Class, fmt.Sprintf("accept:%v", want))
@@ -132,6 +133,8 @@ func TestVerif_C03_Wrappers(t *testing.T) {
 			return
 		}
 		r, s := gen.Pad32(rr), gen.Pad32(ss)
+		foreignCalls(t, rec, "foreign")
+		resplit(t, rec, "resplit", id, px, py)
 		mut := gen.Pick(t, "mut", "none", "none", "id", "msg", "r", "s", "key")
 		id2, msg2 := append([]byte(nil), id...), append([]byte(nil), msg...)
 		switch mut {
